@@ -4,7 +4,7 @@
    panic is an observed outcome).  [agree]: the model with every guard present ([..._now]) predicts
    exactly the observed outcome.  [P_b]: the property on the observed outcome alone: no panic on
    any input of the domain, and the error / fallback the statement names. *)
-From Verif Require Export Lib.Base Model.C16_Paths Model.C16_Sessions Model.C16_Bids.
+From Verif Require Export Lib.Base Model.C16_Paths Model.C16_Sessions Model.C16_Bids Model.C16_Aggsel.
 
 (* ------------------------------------------------------------------------------------------- *)
 (* equality tests *)
@@ -50,7 +50,10 @@ Inductive input :=
 | IHeadSeq (script : list block_answer) (evs : list head_event)
 | IDynamicSeq (calls : N) (ps : list fetch) (fs : option (list fetch))
 | IProposeSeq (ops : list p1_in)
-| IBidSeq (s : list (list bid_relay)).                 (* one builder-bid strategy; per auction the relays with their keys and answers *)
+| IBidSeq (s : list (list bid_relay))                  (* one builder-bid strategy; per auction the relays with their keys and answers *)
+| IAggSel (target : N) (sign_ok : bool) (rows : list (N * N)).
+                                                       (* aggregator selection: TARGET_AGGREGATORS_PER_COMMITTEE, does the slot signer
+                                                          answer, per validator (committee length, first 8 bytes of the hashed signature) *)
 
 Inductive observed :=
 | OPropose (panicked : bool) (tr : p1_trace)
@@ -65,9 +68,10 @@ Inductive observed :=
 | OHeadSeq (l : list (outcome (option N) unit))        (* the execution head after the constructor and after each event, up to the first panic *)
 | ODynamicSeq (l : list (outcome (list N) gr_err))     (* the line chosen by each call *)
 | OProposeSeq (l : list (bool * p1_trace))             (* per proposal: panicked?, what the mocks saw; up to the first panic *)
-| OBidSeq (l : list (outcome (list N * list N * N * list N) unit)).
+| OBidSeq (l : list (outcome (list N * list N * N * list N) unit))
                                                        (* per auction: AllProviders, Providers, the winning score, the relays
                                                           with a participation; up to the first panic (the process is gone) *)
+| OAggSel (o : outcome (bool * list bool) unit).      (* the signer's signatures handed back unchanged?, aggregator per validator *)
 
 Record case := { c_id : N; c_in : input; c_obs : observed }.
 
@@ -145,6 +149,9 @@ Definition agree (c : case) : bool :=
       all2 (fun o m => Bool.eqb (fst o) (fst m) && trace_eqb (snd o) (snd m)) l (propose_seq_now ops)
   | IBidSeq s, OBidSeq l =>
       list_eqb (outcome_eqb auction_obs_eqb unit_eqb) l (map auction_obs (bid_session_now s))
+  | IAggSel target sign_ok rows, OAggSel o =>
+      outcome_eqb (prod_eqb Bool.eqb (list_eqb Bool.eqb)) unit_eqb o
+                  (match aggsel_now target sign_ok rows with Ok l => Ok (true, l) | Err e => Err e | Panic => Panic end)
   | _, _ => false
   end.
 
@@ -446,6 +453,18 @@ Fixpoint P_bid_session (s : list (list bid_relay)) (obs : list (outcome (list N 
   | _, _ => false
   end.
 
+(* aggregator selection: whatever committee lengths the node reports (0, 1, anything below
+   TARGET_AGGREGATORS_PER_COMMITTEE, 2^64-1) the call does not panic; a failing signer is an error;
+   otherwise every validator gets the specification's verdict hash mod max(1, length / TARGET) = 0
+   and the signatures are handed back.  TARGET = 0 is outside the domain (a spec constant). *)
+Definition P_aggsel (target : N) (sign_ok : bool) (rows : list (N * N)) (o : outcome (bool * list bool) unit) : bool :=
+  (target =? 0) ||
+  match o with
+  | Panic => false
+  | Err _ => negb sign_ok
+  | Ok (same, l) => sign_ok && same && list_eqb Bool.eqb l (map (spec_is_aggregator target) rows)
+  end.
+
 Definition P_b (c : case) : bool :=
   match c_in c, c_obs c with
   | IPropose i, OPropose p tr => P_propose i p tr
@@ -460,6 +479,7 @@ Definition P_b (c : case) : bool :=
   | IDynamicSeq calls ps fs, ODynamicSeq l => P_dynamic_session calls ps fs l
   | IProposeSeq ops, OProposeSeq l => P_propose_session ops l
   | IBidSeq s, OBidSeq l => P_bid_session s l
+  | IAggSel target sign_ok rows, OAggSel o => P_aggsel target sign_ok rows o
   | _, _ => false
   end.
 
